@@ -15,7 +15,7 @@ import json
 import os
 import shutil
 
-from harness import explore, mc, scn as S
+from harness import explore, mc, scn as S, tlc
 
 os.environ.setdefault("MOSAIK_VERIF_TRACE", "1")
 
@@ -197,7 +197,11 @@ def model_part(prop, tier, seed):
                 cov["graph_edges"] += total
                 cov["replayed"] += len(pairs)
                 cov["replay_deviations"] += sum(1 for _, r in pairs if r["deviations"] or r.get("unscripted"))
-                verdicts, info = mc.validate_internal(res["scn"], [r for _, r in pairs], **res["kw"])
+                try:
+                    verdicts, info = mc.validate_internal(res["scn"], [r for _, r in pairs], **res["kw"])
+                except tlc.TLCError as e:
+                    verdicts = [{"accepted": False, "at": 0, "what": "SchedTrace gave no verdict: " + str(e).splitlines()[0][:120]} for _ in pairs]
+                    info = {"states": 0, "generated": 0, "secs": 0.0}
                 acc = sum(1 for v in verdicts if v["accepted"])
                 cov["internal_traces_accepted"] += acc
                 cov["internal_traces_rejected"] += len(verdicts) - acc
@@ -282,7 +286,13 @@ def random_conformance(prop, tier, seed, fam=None):
         v, pairs = job
         if any(r["outcome"].get("phase") == "build" or r["outcome"]["r"] == "ScenarioError" for _, r in pairs):
             return v, pairs, None, None
-        verdicts, info = mc.validate_internal(v, [r for _, r in pairs], next_offs=(0, 1, 2, 3), fut_offs=(0, 1, 2), timeout=600)
+        try:
+            verdicts, info = mc.validate_internal(v, [r for _, r in pairs], next_offs=(0, 1, 2, 3), fut_offs=(0, 1, 2), timeout=240)
+        except tlc.TLCError as e:
+            # the search for a behaviour of (S) that explains the recorded sections did not finish (or could not be evaluated):
+            # code and model differ - drift, never a verdict and never a failure of the check
+            verdicts = [{"accepted": False, "at": 0, "what": "SchedTrace gave no verdict: " + str(e).splitlines()[0][:120]} for _ in pairs]
+            info = {"states": 0, "generated": 0, "secs": 0.0}
         return v, pairs, verdicts, info
 
     with cf.ThreadPoolExecutor(max_workers=8) as ex:
